@@ -481,6 +481,10 @@ class Limiter(Discrete):
             else:
                 self.zl[:] = np.less(self.u.v, lower_v)
 
+            # keep the flags mutually exclusive if the limits coincide with the input
+            if not self.no_upper:
+                self.zl[:] = np.logical_and(self.zl, np.logical_not(self.zu))
+
         self.zi[:] = np.logical_not(np.logical_or(self.zu, self.zl))
 
     def do_adjust_lower(self, val, lower, allow_adjust=True, adjust_lower=False):
@@ -801,6 +805,10 @@ class AntiWindup(Limiter):
                                         np.less_equal(self.state.e, 0))
             if niter > self.niter_lock:
                 self.zl[:] = np.logical_or(self.zl0, self.zl)
+
+            # keep the flags mutually exclusive if the limits coincide with the input
+            if not self.no_upper:
+                self.zl[:] = np.logical_and(self.zl, np.logical_not(self.zu))
 
         self.zi[:] = np.logical_not(np.logical_or(self.zu, self.zl))
 
